@@ -86,7 +86,7 @@ fn write_packet(b: &mut Vec<u8>, e: &Ev) {
 
 // ---------------------------------------------------------------- mode H
 #[derive(Default, Clone)]
-struct ShadowFlow { conn: u32, cbytes: u64, sbytes: u64, csegs: u64, ssegs: u64, cparsed: bool, sparsed: bool }
+struct ShadowFlow { conn: u32, cbytes: u64, sbytes: u64, csegs: u64, ssegs: u64, cparsed: bool, sparsed: bool, cstored: Vec<(u32, Vec<u8>)>, sstored: Vec<(u32, Vec<u8>)> }
 
 fn run_h(cap: usize, items: &[&str]) -> String {
     use huginn_net_http::http_process::{process_http_ipv4, FlowKey, HttpProcessors, TcpFlow};
@@ -126,18 +126,22 @@ fn run_h(cap: usize, items: &[&str]) -> String {
                     cost = plen;
                     {
                         let f = &mut shadow[ix];
-                        if e.client { if !f.cparsed { f.cbytes += plen; f.csegs += 1; stored = true; rebuilt = f.cbytes; if kind == 'Q' { f.cparsed = true; } } }
-                        else if !f.sparsed { f.sbytes += plen; f.ssegs += 1; stored = true; rebuilt = f.sbytes; if kind == 'R' { f.sparsed = true; } }
+                        // an exact retransmission (same sequence number, same bytes) is not stored again (fix C09-dup)
+                        let seg = (e.seq, e.pay.clone());
+                        if e.client { if !f.cparsed && !f.cstored.contains(&seg) { f.cstored.push(seg); f.cbytes += plen; f.csegs += 1; stored = true; rebuilt = f.cbytes; if kind == 'Q' { f.cparsed = true; } } }
+                        else if !f.sparsed && !f.sstored.contains(&seg) { f.sstored.push(seg); f.sbytes += plen; f.ssegs += 1; stored = true; rebuilt = f.sbytes; if kind == 'R' { f.sparsed = true; } }
                     }
                     if stored { cost += 3 * rebuilt; }
                     let f = shadow[ix].clone();
                     // removal uses this packet's key: only a client-direction packet can remove the flow
-                    if e.client && ((f.cparsed && f.sparsed) || e.flags.contains('F') || e.flags.contains('R')) { shadow.remove(ix); }
+                    // RST, or FIN unless the request was reported and the response is still pending (fix C09-fin)
+                    let pending = f.cparsed && !f.sparsed;
+                    if e.client && ((f.cparsed && f.sparsed) || e.flags.contains('R') || (e.flags.contains('F') && !pending)) { shadow.remove(ix); }
                 }
             } else if e.client && e.flags.contains('S') {
                 // (a server-direction SYN without flow would create a reversed flow; the generator never does that)
                 cost = plen;
-                shadow.push(ShadowFlow { conn: e.conn, cbytes: plen, csegs: 1, ..Default::default() });
+                shadow.push(ShadowFlow { conn: e.conn, cbytes: plen, csegs: 1, cstored: vec![(e.seq, e.pay.clone())], ..Default::default() });
                 if shadow.len() > cap { shadow.remove(0); }
             }
             let sh_bytes: u64 = shadow.iter().map(|f| f.cbytes + f.sbytes).sum();
